@@ -6,10 +6,11 @@ replay(ctx, record).
 """
 import cpu_rv32i
 import cpu_msp430
+import cpu_m6502
 import cpu_sweep
 
 ID = "C08"
-CPU_MODULES = [cpu_rv32i, cpu_msp430, cpu_sweep]
+CPU_MODULES = [cpu_rv32i, cpu_msp430, cpu_m6502, cpu_sweep]
 
 # CPU-independent theorems (lean/NakenVerif/Common/Walk.lean, re-exported by Props/C08.lean)
 COMMON_THEOREMS = ["NakenVerif.Walk." + n for n in (
